@@ -4,7 +4,6 @@ Import ListNotations.
 Require Import PV.Lib.Bytes PV.Lib.BytesLemmas PV.Model.Armor PV.Spec.Rfc4880_armor PV.Proofs.Armor_lemmas.
 Open Scope Z_scope.
 
-Definition is_eol (eol : text) : Prop := eol = [] \/ eol = [13].
 
 (* ---------- plain characters ---------- *)
 Lemma plain_not_nl c : plain_char c = true -> c <> 10 /\ c <> 13 /\ ascii_char c = true.
